@@ -729,3 +729,18 @@ pub fn show_bytes(b: &[u8]) -> String {
     }
     s
 }
+
+/// Runs `f` on a thread with a 2 MiB stack (the default of `std::thread::spawn` and of the test
+/// harness, i.e. what a parser typically gets); used by the scale oracles. A panic is passed on.
+pub fn on_small_stack<R: Send>(f: impl FnOnce() -> R + Send) -> R {
+    std::thread::scope(|s| {
+        let h = std::thread::Builder::new()
+            .stack_size(2 << 20)
+            .spawn_scoped(s, f)
+            .expect("spawn scale thread");
+        match h.join() {
+            Ok(r) => r,
+            Err(p) => std::panic::resume_unwind(p),
+        }
+    })
+}
